@@ -17,7 +17,7 @@ def P(variants, quick_s, thorough_s, rule, probes=None, probes_thorough=None, as
     return d
 
 PROPS = {
-    "C10": P(["asan", "asanz"], 30, 900,
+    "C10": P(["asan", "asanz", "asanu"], 30, 900,
              "plans = 1..12 expansions per run sharing one variable store; value strings assembled from ordinary text, $NAME/${NAME}/$(NAME) over set/unset/empty variables, backslash escapes, "
              "tildes, single- and double-quoted sections, %put/%get (with defaults, nested up to depth 3), %version/%appname/%random/%exec/backquote, and don't-care constructs (unknown %word, lone $, "
              "unterminated ${ and %get(, trailing backslash), %dirscan over a simulated directory whose listing is modelled exactly (one run in ten makes the listing 20474..20486 or 41000 bytes long with 100..255-character names), "
@@ -44,7 +44,7 @@ PROPS = {
                      "include_depth_crossed_80", "include_depth_crossed_160", "unknown_context", "surplus_end", "eof_without_newline", "include_open_failed", "contexts_crossed_20",
                      "contexts_crossed_160", "unbalanced_input", "file_opened_but_unreadable", "empty_file",
                      "delivered_value_was_expanded", "include_refused_at_depth_255", "root_found_through_search_path"]),
-    "C14": P(["asan", "asanz"], 30, 900,
+    "C14": P(["asan", "asanz", "asanu"], 30, 900,
              "plans = 1..20 URLs per run (4/5 from component tuples over small alphabets with each optional part present/absent -- three quarters of those as text, one quarter assembled through the setters, unparsed and parsed again; 1/5 arbitrary byte strings), "
              "one simulated name-service table per run (7 bits: tcp/udp/ip protocols, http/ftp/dns services, a service whose protocol is missing), two stack paints per URL; "
              "oracle = reference splitter + port rule + canonical unparse + parse(unparse) round trip + identical components under both paints + allocator ledger; "
@@ -57,7 +57,7 @@ PROPS = {
              "for allocation-semantics equality; distinct = distinct trace hash; non-trivial = >= 3 ops",
              probes=["realloc_moved", "address_reused_after_free", "remove_from_middle", "realloc_to_zero", "realloc_of_null", "unknown_pointer_free", "filename_truncated",
                      "via_macros", "object_program_on_tracking_build", "tracking_switched_on"]),
-    "C17": P(["asan", "asanz"], 30, 900,
+    "C17": P(["asan", "asanz", "asanu"], 30, 900,
              "plans = 1..20 comparisons per run: pairs of generated well-formed versions (N(.N)*[word[N]], words incl. snap/pre/alpha/beta/rc), near-identical pairs, and wild strings of "
              "letter/digit/punctuation runs with lengths biased to 1, 126..129, 200, 1000; arguments are exact-size simulated blocks; each comparison runs under two stack paints, after "
              "another call, in both argument orders and against itself; reference comparator on well-formed pairs where the statement defines the order; Since round 11: every comparison of a run is asked again at the end of the run in reverse order (same answer required), and one pair in four is derived from the previous call's strings (word cut, grown, or replaced by two different pre-release words). distinct = distinct trace hash; non-trivial = >= 3 comparisons",
